@@ -18,7 +18,7 @@ FIELD = {0: "value", 1: "f", 2: "g", 3: "kids", 4: "m", 5: "s", 6: "list_items",
 # harness"): the model node carries the list of trait names the filter matches on class N; the dynamic traits
 # 12, 13 exist on an object only after add_trait (the model gates every name by trait existence)
 FILTERS = {"anytrait": [0, 1, 2, 3, 4, 5, 10, 11, 12, 13],   # expression.anytrait(): leaf only (mixed value types)
-           "tag": [1, 2],                            # expression.metadata("tag"): f and g carry tag=True
+           "tag": [1, 2, 13],                        # expression.metadata("tag"): f, g (and the dynamic x2) carry tag=True
            "match_fg": [1, 2],                       # expression.match(lambda name, trait: name in ("f", "g"))
            "match_vk": [0, 3]}                       # expression.match(...) on value and kids: leaf only
 LEAF_FILTERS = ("anytrait", "match_vk")
@@ -298,8 +298,22 @@ def gen_case(rnd, ctx, maxmut, cyclic=False):
         ops.append(op)
         ctx.count("op:" + opkind(op))
 
+    follow = []               # container on which a slice just changed the multiplicity of an object
+
     def mutation():
         """One acyclic mutation (None if the drawn one would close a cycle or is impossible)."""
+        if follow:
+            c = follow.pop()
+            cur = sh.items[c]
+            if cur and sh.kind[c] == 6:     # take the occurrences away one at a time
+                if rnd.random() < 0.5:
+                    x = rnd.choice(cur)
+                    i = cur.index(x)
+                    sh.items[c] = cur[:i] + cur[i + 1:]
+                    return ["Cop", c, 6, "remove", [x], [i, 1, []]]
+                i = rnd.randrange(len(cur))
+                sh.items[c] = cur[:i] + cur[i + 1:]
+                return ["Cop", c, 6, "pop", [i], [i, 1, []]]
         o = rnd.randrange(npool)
         r = rnd.random()
         if r < 0.27:
@@ -358,7 +372,7 @@ def gen_case(rnd, ctx, maxmut, cyclic=False):
         n = len(cur)
         if kind == 6:
             meth = rnd.choice(["append", "append", "insert", "pop", "setitem", "delitem", "clear", "extend",
-                               "remove", "setslice", "delslice", "iadd"])
+                               "remove", "setslice", "setslice", "delslice", "iadd", "reverse", "sort"])
             if meth in ("append",):
                 if not ok_v:
                     return None
@@ -402,11 +416,30 @@ def gen_case(rnd, ctx, maxmut, cyclic=False):
             elif meth == "setslice":
                 i = rnd.randint(0, n)
                 j = rnd.randint(i, n)
-                vs = [rnd.randrange(npool) for _ in range(rnd.randint(0, 2))]
+                if cur[i:j] and rnd.random() < 0.5:
+                    # the removed objects come back with another multiplicity / order ([a, a] -> [a], [a] -> [a, a, b])
+                    seg = cur[i:j]
+                    vs = [rnd.choice(seg) for _ in range(rnd.randint(1, len(seg) + 1))]
+                    if rnd.random() < 0.3:
+                        vs.append(rnd.randrange(npool))
+                else:
+                    vs = [rnd.randrange(npool) for _ in range(rnd.randint(0, 2))]
                 if own is not None and any(sh.reaches(x, own) for x in vs):
                     return None
                 sp = [i, j - i, vs]
                 args = [i, j, vs]
+                if set(vs) & set(cur[i:j]):
+                    follow.extend([c, c])
+            elif meth == "reverse":
+                if n < 2:
+                    return None
+                sp = [0, n, cur[::-1]]
+                args = []
+            elif meth == "sort":
+                if n < 2 or sorted(cur) == cur:
+                    return None
+                sp = [0, n, sorted(cur)]
+                args = []
             else:
                 i = rnd.randint(0, n)
                 j = rnd.randint(i, n)
@@ -415,8 +448,19 @@ def gen_case(rnd, ctx, maxmut, cyclic=False):
             i, k, vs = sp
             sh.items[c] = cur[:i] + list(vs) + cur[i + k:]
         elif kind == 7:
-            meth = rnd.choice(["setitem", "setitem", "delitem", "pop", "clear", "setdefault", "update"])
+            meth = rnd.choice(["setitem", "setitem", "delitem", "pop", "clear", "setdefault", "update", "update2"])
             keys = [a[0] for a in cur]
+            if meth == "update2":
+                # one update() that replaces the value of the last key and adds a new key
+                free = [k for k in ("a", "b", "c", "d") if k not in keys]
+                v2 = rnd.randrange(npool)
+                if not n or not free or not ok_v or (own is not None and sh.reaches(v2, own)):
+                    return None
+                sp = [n - 1, 1, [v, v2]]
+                args = [keys[-1], v, free[0], v2]
+                cur[-1] = [keys[-1], v]
+                cur.append([free[0], v2])
+                return ["Cop", c, kind, meth, args, sp]
             if meth in ("setitem", "update", "setdefault"):
                 if not ok_v:
                     return None
@@ -610,6 +654,17 @@ def corpus():
     cs.append(dict(npool=3, shape="acyclic", ops=[
         ["Observe", 0, 0, kiv], ["SetCont", 0, 3, [1], False]] + probes_for(3) + [
         ["SetCont", 0, 3, [], False]] + probes_for(3)))
+    # one slice assignment that removes and adds the same object with another multiplicity, then one
+    # occurrence removed: [a, a] -> xs[:] = [a] -> remove(a) (a detached); [a] -> xs[0:1] = [a, a] -> pop (a stays)
+    cs.append(dict(npool=3, shape="acyclic", ops=[
+        ["SetCont", 0, 3, [1, 1], False], ["Observe", 0, 0, kiv],
+        ["Cop", 3, 6, "setslice", [0, 2, [1]], [0, 2, [1]]]] + probes_for(3) + [
+        ["Cop", 3, 6, "remove", [1], [0, 1, []]]] + probes_for(3)))
+    cs.append(dict(npool=3, shape="acyclic", ops=[
+        ["SetCont", 0, 3, [1], False], ["Observe", 0, 0, kiv],
+        ["Cop", 3, 6, "setslice", [0, 1, [1, 1, 2]], [0, 1, [1, 1, 2]]]] + probes_for(3) + [
+        ["Cop", 3, 6, "pop", [0], [0, 1, []]]] + probes_for(3) + [
+        ["Cop", 3, 6, "reverse", [], [0, 2, [2, 1]]], ["Cop", 3, 6, "pop", [0], [0, 1, []]]] + probes_for(3)))
     # F14, first form: a cycle through the root leaves a stale maintainer
     ffv = parse_named("f.f.value")
     cs.append(dict(npool=2, shape="cyclic", name="f14-cycle-through-root", ops=[
@@ -630,11 +685,15 @@ def gen_dyn_case(rnd, ctx):
     d = rnd.choice([12, 12, 13])
     n = rnd.random() < 0.7
     V = [0, True, False, []]
-    shapes = [[d, True, True, []], [d, n, True, [V]], [1, n, False, [[d, n, True, [V]]]],
+    shapes = [["tag", n, False, [V]], ["tag", n, False, [V]], [1, n, False, [["tag", n, False, [V]]]],
+              ["tag", n, False, [["tag", n, False, [V]]]],
+              [d, True, True, []], [d, n, True, [V]], [1, n, False, [[d, n, True, [V]]]],
               ["anytrait", True, False, []], [1, n, False, [["anytrait", True, False, []]]],
               [3, n, False, [[6, n, False, [[d, True, True, []]]]]], [d, n, True, [[d, n, True, [V]]]],
               [1, True, False, [[d, True, True, []], V]]]
     g = rnd.choice(shapes)
+    if '"tag"' in json.dumps(g):
+        d = 13                # the dynamic trait that carries tag=True
     ops = []
     have = set()          # (object, dynamic field) added so far
     ref = {}
@@ -648,10 +707,10 @@ def gen_dyn_case(rnd, ctx):
             ops.append(["Probe", o])
 
     def mutation():
-        o = rnd.randrange(npool)
+        o = rnd.randrange(npool) if rnd.random() < 0.5 else rnd.choice([0, 0, 1])
         r = rnd.random()
         if r < 0.3:
-            f = rnd.choice([12, 13, d])
+            f = rnd.choice([12, 13, d, d])
             if (o, f) in have:
                 return None
             have.add((o, f))
